@@ -66,7 +66,7 @@ CHECKS = {
    "array index tokens are canonical decimal (no sign/leading zeros); only requests (read/write/call) run concurrently, registrations and merges stay in the sequential prefix; linearizability search bounded to 16 operations.",
    "deterministic simulation: seeded histories vs. reference model + linearizability check of simulated-thread histories"),
  "C18": ("exploration","5.3/C18",
-   "Seeded sequential histories (<=3 peers x 3 keys small scope, and long random) on the real PeerRegistry compared step by step with a peer/alias model including every key's lookup and every peer's alias list after each step; capturing sinks (some reporting Full/Disconnected) check broadcast delivery and content; 2-4 simulated threads x 1-4 ops under seeded schedules checked for linearizability.",
+   "Seeded sequential histories (<=3 peers x 3 keys small scope, and long random) on the real PeerRegistry compared step by step with a peer/alias model including every key's lookup and every peer's alias list after each step; capturing sinks (some reporting Full/Disconnected) check broadcast delivery and content; 2-4 simulated threads x 1-4 ops under seeded schedules checked for linearizability. On real peers: a WebSocketServer with the registry on the simulated network, 1-4 raw WebSocket peers that connect (handshake-derived aliases, keys shared and re-pointed), leave and join while json/beve/utf8/raw broadcasts and keyed sends run from the runtime thread or a simulated embedder thread; each peer's wire is compared with the broadcast's path, body bytes and format tag, the result map with the peers present, lookups/alias lists/len with the model after every step.",
    "PeerIds inserted into one registry are unique (documented contract); linearizability search bounded to 16 operations.",
    "deterministic simulation: seeded histories vs. reference model + linearizability check of simulated-thread histories"),
  "C13": ("exploration","5.3/C13",
